@@ -1502,3 +1502,44 @@ pub fn scratch_vk_bytes<O: ScratchOp>(op: &O, x: Option<&[BigUint]>, k: u32) -> 
 pub fn scratch_op_k<O: ScratchOp>(op: &O, x: &[BigUint]) -> Result<u32, String> {
     scratch_k(op, x)
 }
+
+// ---------------------------------------------------------------------------
+// S5 on a target (see s3.rs)
+
+struct TargetArena<'a, T: Target> {
+    t: &'a T,
+    x: &'a [BigUint],
+    n_pub: usize,
+}
+
+impl<T: Target> crate::s3::Arena for TargetArena<'_, T> {
+    fn arena_name(&self) -> String {
+        self.t.tname()
+    }
+    fn replay(&self, plan: &HashMap<usize, Fault<F>>) -> (bool, Vec<F>, Option<MockProver<F>>) {
+        match run_target(self.t, self.x, Inst::ReadBack(self.n_pub), plan) {
+            Ok(r) => (r.outcome.accepted(), r.public, r.prover.map(|b| *b)),
+            Err(_) => (false, vec![], None),
+        }
+    }
+    fn judge(&self, public: &[F]) -> bool {
+        self.t.judge_t(public, None)
+    }
+    fn classify(&self, public: &[F]) -> Option<String> {
+        self.t.classify_t(self.x, public, None)
+    }
+}
+
+/// Coherent lookup-tuple substitution + linear repair on one honest run of the target.
+pub fn s5_target<T: Target>(t: &T, x: &[BigUint], seed: u64, max_classes: usize, budget_per_tuple: usize) -> Result<(crate::s3::S5Stats, Verdict), Failure> {
+    let Some(inst) = t.reference_t(x) else {
+        return Ok((Default::default(), Verdict::trivial("out-of-domain-input-skipped")));
+    };
+    let honest = run_target(t, x, Inst::ReadBack(inst.len()), &HashMap::new())?;
+    if !honest.outcome.accepted() || honest.public != inst {
+        return Err(Failure::new(format!("{}:readback-mismatch", t.tname()), format!("honest run with read-back: outcome {:?}", honest.outcome)));
+    }
+    let Some(prover) = honest.prover else { return Ok((Default::default(), Verdict::trivial("no-prover"))) };
+    let arena = TargetArena { t, x, n_pub: inst.len() };
+    crate::s3::check_lookup_tuples(&arena, &honest.log, &prover, &inst, seed, max_classes, budget_per_tuple)
+}
